@@ -76,6 +76,8 @@ type Backend struct {
 	// Override, if set, decides the result of NewSession/Mail/Rcpt/Data
 	// (ok=false: fall back to the address convention).
 	Override func(kind, arg string) (err error, ok bool)
+	// Overlaps lists Reset/Logout calls that began while a delivery on the same session was running.
+	Overlaps []string
 	// Probe, if set, is called inside NewSession with the Conn.
 	Probe func(c *smtp.Conn)
 }
@@ -113,6 +115,9 @@ func decide(addr string) error {
 	switch {
 	case strings.HasPrefix(local, "rejml"):
 		return &smtp.SMTPError{Code: 550, EnhancedCode: smtp.EnhancedCode{5, 1, 1}, Message: "rejected " + addr + "\nsecond line of the refusal"}
+	case strings.HasPrefix(local, "rejne"):
+		// an SMTPError without enhanced code: the server must derive X.0.0 of the reply's class
+		return &smtp.SMTPError{Code: 550, Message: "rejected (no enhanced code) " + addr}
 	case strings.HasPrefix(local, "rej"):
 		return RejErr(addr)
 	case strings.HasPrefix(local, "tmp"):
@@ -128,6 +133,12 @@ func (b *Backend) NewSession(c *smtp.Conn) (smtp.Session, error) {
 	e := &Event{Kind: "NewSession", Helo: c.Hostname(), TLS: isTLS}
 	if b.Probe != nil {
 		b.Probe(c)
+	}
+	b.gate("cb:NewSession")
+	if strings.HasPrefix(c.Hostname(), "closeme") {
+		// a backend that decides inside NewSession to drop the client (public API Conn.Reject) and still
+		// returns a session object, which must be logged out like any other
+		c.Reject()
 	}
 	if b.Override != nil {
 		if err, ok := b.Override("NewSession", c.Hostname()); ok && err != nil {
@@ -169,6 +180,11 @@ type sess struct {
 	id    int
 	from  string
 	rcpts []string
+	// touched by Reset/Logout (write) and by a delivery until it returns (read): a Reset or Logout
+	// that is not ordered after the delivery is a data race the detector can see (engine R), and an
+	// overlap the backend records itself (engine X)
+	epoch  int
+	inData int
 }
 
 func errStr(err error) string {
@@ -211,6 +227,7 @@ func RcptOptsString(o *smtp.RcptOptions) string {
 func (s *sess) Mail(from string, opts *smtp.MailOptions) (err error) {
 	e := s.b.add(&Event{Sess: s.id, Kind: "Mail", Arg: from, Opts: MailOptsString(opts)})
 	defer func() { e.Ret = errStr(err); e.Ended = true }()
+	s.b.gate("cb:Mail")
 	if s.b.Override != nil {
 		if oerr, ok := s.b.Override("Mail", from); ok {
 			return oerr
@@ -225,6 +242,7 @@ func (s *sess) Mail(from string, opts *smtp.MailOptions) (err error) {
 func (s *sess) Rcpt(to string, opts *smtp.RcptOptions) (err error) {
 	e := s.b.add(&Event{Sess: s.id, Kind: "Rcpt", Arg: to, Opts: RcptOptsString(opts)})
 	defer func() { e.Ret = errStr(err); e.Ended = true }()
+	s.b.gate("cb:Rcpt")
 	if s.b.Override != nil {
 		if oerr, ok := s.b.Override("Rcpt", to); ok {
 			return oerr
@@ -236,13 +254,23 @@ func (s *sess) Rcpt(to string, opts *smtp.RcptOptions) (err error) {
 	return err
 }
 
+func (s *sess) noteOverlap(kind string) {
+	s.b.mu.Lock()
+	if s.inData > 0 {
+		s.b.Overlaps = append(s.b.Overlaps, fmt.Sprintf("%s began on session #%d while its Data call was still running", kind, s.id))
+	}
+	s.b.mu.Unlock()
+}
+
 func (s *sess) Reset() {
+	s.noteOverlap("Reset")
 	s.b.add(&Event{Sess: s.id, Kind: "Reset", Ended: true})
 	s.from = ""
 	s.rcpts = nil
 }
 
 func (s *sess) Logout() error {
+	s.noteOverlap("Logout")
 	s.b.add(&Event{Sess: s.id, Kind: "Logout", Ended: true})
 	return s.b.LogoutErr
 }
@@ -264,8 +292,12 @@ func (s *sess) consume(kind string, r io.Reader, status smtp.StatusCollector) (e
 		plan = b.Plan(idx)
 	}
 	e := b.add(&Event{Sess: s.id, Kind: kind, Arg: fmt.Sprint(idx), From: s.from, Rcpts: append([]string(nil), s.rcpts...)})
+	b.mu.Lock()
+	s.inData++
+	b.mu.Unlock()
 	defer func() {
 		b.mu.Lock()
+		s.inData--
 		e.Ret = errStr(err)
 		e.Ended = true
 		b.mu.Unlock()
